@@ -893,6 +893,9 @@ func (a *Act) refFacts(st *State, v Val) {
 	if v.T == nil || v.S == "" {
 		return
 	}
+	if _, isTP := isTypeParam(v.T); isTP {
+		return
+	}
 	a.vc.assume("true", a.vc.g.rangeFact(v.T, v.S))
 	switch v.T.Underlying().(type) {
 	case *types.Pointer, *types.Map, *types.Chan:
